@@ -97,7 +97,7 @@ def scripts_from_lr_sim(simdir, getters, refreshers, writers, kinds, preload):
                     # (a panicking reload on an executor goroutine takes the goroutine down by design: replayed as an error)
                     "preload": 1 if preload else 0, "outcomes": ["val"],
                     "outseq": [("err" if (p in rname and outc.get(p) == "panic") else outc.get(p, "val")) for p in order], "policy": "script",
-                    "seed": 0, "script": steps, "refresh": 1 if (refreshers or preload) else 0, "bulkkeys": 2, "hgate": 1, "bulkref": 0, "inloader": []})
+                    "seed": 0, "script": steps, "refresh": 1 if (refreshers or preload) else 0, "bulkkeys": 2, "hgate": 1, "bulkref": 0, "inloader": [], "expiry": 0})
     return out
 
 
@@ -119,7 +119,7 @@ def scenarios_c11(quick, seed):
     for j in range(n):
         outs = [["val"], ["err"], ["nf"], ["val", "err"], ["val", "nf", "err"]][j % 5]
         out.append({"getters": j % 3, "bulk": (j // 3) % 2 if j % 4 == 0 else 0, "refreshers": 1 + (j // 2) % 3, "writers": [] if j % 4 else [["set"], ["invalidate"], ["compute"]][(j // 4) % 3],
-                    "preload": 1, "outcomes": outs, "policy": "random" if j % 2 else "pct", "seed": seed * 100000 + 50000 + j, "script": [], "refresh": 1, "bulkkeys": 2, "hgate": 0, "bulkref": 0, "inloader": []})
+                    "preload": 1, "outcomes": outs, "policy": "random" if j % 2 else "pct", "seed": seed * 100000 + 50000 + j, "script": [], "refresh": 1, "bulkkeys": 2, "hgate": 0, "bulkref": 0, "inloader": [], "expiry": 0})
     return out
 
 
@@ -138,7 +138,7 @@ def scenarios(prop, quick, seed):
             outs = outs + ["panic"]
         sc = {"getters": 1 + j % 3, "bulk": (j // 3) % 2, "refreshers": refreshers, "writers": kinds[j % len(kinds)],
               "preload": (j // 4) % 2 if refresh else 0, "outcomes": outs, "policy": "random" if j % 2 else "pct",
-              "seed": seed * 100000 + j, "script": [], "refresh": refresh, "bulkkeys": 2, "hgate": 0, "bulkref": 0, "inloader": []}
+              "seed": seed * 100000 + j, "script": [], "refresh": refresh, "bulkkeys": 2, "hgate": 0, "bulkref": 0, "inloader": [], "expiry": 0}
         fam = j % 8
         if fam in (1, 5):      # waiters joined to a failing / not-found / panicking bulk or single load
             sc.update(getters=2 + j % 2, bulk=1 if fam == 1 else 0, refreshers=0, refresh=0, preload=0, writers=[],
@@ -156,6 +156,14 @@ def scenarios(prop, quick, seed):
             # the write happens inside the loader itself (user code): a whole call between the start of the load and its installation
             sc.update(getters=1 + (j // 16) % 2, bulk=0, refreshers=(j // 32) % 2, refresh=(j // 32) % 2, preload=(j // 32) % 2, writers=[], outcomes=[["val"], ["nf"], ["val"], ["err"]][(j // 8) % 4],
                       inloader=[["set"], ["invalidate"], ["compute"], ["computeinv"], ["invalidateAll"], ["set", "invalidate"]][(j // 16) % 6])
+        if fam == 0 and (j // 8) % 5 == 4:
+            # the entry written during the load has expired (unswept) by the time the load completes: the load must stay cancelled
+            sc.update(getters=1, bulk=0, refreshers=0, refresh=0, preload=0, writers=[], outcomes=["val"], expiry=1,
+                      inloader=[["set", "advance"], ["compute", "advance"], ["setifabsent", "advance"]][(j // 40) % 3])
+        if fam == 5 and (j // 8) % 2 == 1:
+            # a computation that cancels itself is not a write: it must not disturb the flight (no second loader run, value cached)
+            sc.update(getters=2 + j % 2, bulk=0, refreshers=0, refresh=0, preload=0, outcomes=["val"], writers=[["computecancel"], ["computecancel", "computecancel"]][(j // 16) % 2],
+                      policy=sc["policy"].split("+")[0] + "+inflight")
         if fam == 2 and refresh and (j // 8) % 2:
             sc.update(bulkref=1 + (j // 16) % 2)
         if fam == 4 and (j // 8) % 4 == 0 and prop == "C09":
@@ -166,7 +174,7 @@ def scenarios(prop, quick, seed):
                       script=[{"g": "w1", "at": "start"}, {"g": "r1", "at": "start"}, {"g": "xr1", "at": "start"},
                               {"g": "xr1", "at": "ld.enter"}, {"g": "xr1", "at": "ld.exit"}, {"g": "xr1", "at": "ld.beforeInstall"},
                               {"g": "w1", "at": "h.atomic"}])
-        elif sc["writers"]:
+        elif sc["writers"] and "+" not in sc["policy"]:
             # half of the racing scenarios are biased towards the two windows the properties name
             sc["policy"] += ["", "+inflight", "+atinstall", "+inflight"][(j // 8) % 4]
         out.append(sc)
